@@ -1,10 +1,29 @@
-/- Driver for `kind = "c10"` (and `"c10:…"`) cases. -/
+/- Driver for `kind = "c10"` cases: judges an observed concurrent history with the verified checker. -/
 import Driver.Common
+import AskarModel.Model.History
 
-open Lean
+open Lean Askar.History
 
 namespace Driver.C10
 
-def runCase (_j : Json) : Json := jerr "not implemented"
+def pairs (j : Json) : State :=
+  (asArr j).map fun p => match asArr p with
+    | [k, v] => (asStr k, v.getInt?.toOption.getD 0)
+    | _ => ("", 0)
+
+def runCase (j : Json) : Json :=
+  let h := (j.getObjVal? "history").toOption.getD .null
+  let init := pairs ((h.getObjVal? "init").toOption.getD .null)
+  let final := pairs ((h.getObjVal? "final").toOption.getD .null)
+  let txns : List Txn := (arr! h "txns").map fun t =>
+    { reads := pairs ((t.getObjVal? "reads").toOption.getD .null), writes := pairs ((t.getObjVal? "writes").toOption.getD .null) }
+  let snaps := (arr! h "snaps").map pairs
+  let judge := bool! h "judge"
+  let keys := init.map (·.1)
+  if !judge then Json.mkObj [("serializable", .bool true), ("final_ok", .bool true), ("snapshots_ok", .bool true)] else
+  let ser := (replay init txns).isSome
+  let fin := accept keys init txns final && final.length == keys.length
+  let sn := snaps.all fun s => snapshotOk keys init txns s && s.length == keys.length
+  Json.mkObj [("serializable", .bool ser), ("final_ok", .bool fin), ("snapshots_ok", .bool sn)]
 
 end Driver.C10
